@@ -472,6 +472,8 @@ func clip300(s string) string {
 }
 
 func runC02(t *testing.T, c *Case, o RunOpts) *Result {
+	noteCase(c)
+	defer progress.Add(1)
 	var pl C02Plan
 	if err := json.Unmarshal(c.Plan, &pl); err != nil {
 		return &Result{ToolErr: err.Error()}
